@@ -64,7 +64,7 @@ def run(ctx):
         iv = d.val(int_bytes(v))      # (built from the encoding: a failing Integer.from_int must not stop the harness)
         for fn, base, pre in (('hex', 16, '&H'), ('oct', 8, '&O')):
             if (v % stride_txt == 0) or abs(v) < 300 or abs(v) > 32500:
-                r = d.sess.ev('%s$(%d)' % (fn.upper(), v))
+                r = d.ev('%s$(%d)' % (fn.upper(), v))
                 o = ({'k': 'val', 'b': list(bytearray(r[1]))} if r[0] == 'ok' and isinstance(r[1], bytes)
                      else {'k': 'internal' if r[0] == 'internal' else 'err', 'b': [], 'detail': repr(r[1])})
                 via = 'text'
@@ -73,7 +73,7 @@ def run(ctx):
                 via = 'direct'
             e = {'fn': fn, 'v': v, 'k': o['k'], 's': o['b'], 'bk': 'none', 'back': 0, 'via': via}
             if o['k'] == 'val' and o['b'] and len(o['b']) <= 6:
-                rr = d.sess.ev(pre + bytes(bytearray(o['b'])).decode('latin-1'))       # re-read with &H / &O
+                rr = d.ev(pre + bytes(bytearray(o['b'])).decode('latin-1'))       # re-read with &H / &O
                 if rr[0] == 'ok' and isinstance(rr[1], int) and not isinstance(rr[1], bool):
                     e['bk'], e['back'] = 'val', rr[1]
                 else:
@@ -86,13 +86,13 @@ def run(ctx):
             events.append(e)
         # MKI$ by value / CVI by bytes
         if v % stride_txt == 0 or abs(v) < 300 or abs(v) > 32500:
-            r = d.sess.ev('MKI$(%d)' % v)
+            r = d.ev('MKI$(%d)' % v)
             ok = r[0] == 'ok' and isinstance(r[1], bytes)
             events.append({'fn': 'mki', 'v': v, 'k': 'val' if ok else ('internal' if r[0] == 'internal' else 'err'),
                            'r': list(bytearray(r[1])) if ok else [], 'via': 'text'})
             b = int_bytes(v)
             d.setstr('A$', b)
-            r = d.sess.ev('CVI(A$)')
+            r = d.ev('CVI(A$)')
             ok = r[0] == 'ok' and isinstance(r[1], int)
             events.append({'fn': 'cvi', 'x': b, 'k': 'val' if ok else ('internal' if r[0] == 'internal' else 'err'),
                            'v': r[1] if ok else 0, 'via': 'text'})
@@ -165,7 +165,7 @@ def run(ctx):
                 d.setstr('A$', b)
                 o = d.evalv('%s(A$)' % CVFN[t])
                 events.append({'fn': 'cv', 't': t, 'x': b, 'k': o['k'], 'rt': o['t'], 'r': o['b'], 'c': o['c'], 'via': 'text'})
-                r = d.sess.ev('%s(%s(A$))' % (MKFN[t], CVFN[t]))        # the real Session.evaluate
+                r = d.ev('%s(%s(A$))' % (MKFN[t], CVFN[t]))        # the real Session.evaluate
                 ok = r[0] == 'ok' and isinstance(r[1], bytes)
                 events.append({'fn': 'mk', 't': t, 'x': b, 'k': 'val' if ok else ('internal' if r[0] == 'internal' else 'err'),
                                'r': list(bytearray(r[1])) if ok else [], 'via': 'text'})
